@@ -187,10 +187,65 @@ func TestVerifC05_E2EContent(t *testing.T) {
 		}
 		return "4-fragments"
 	}
+	// remote datagrams around and above the server's 4096-byte socket read buffer: the fake socket
+	// behaves like a kernel socket (ReadFrom copies min(len(buf), datagram) bytes), so the server only
+	// ever sees a prefix of an over-size datagram. Such a datagram may be dropped; it must never reach
+	// the client as something the remote did not send.
+	bigSizes := []int{4000, 4060, 4087, 4090, 4095, 4096, 4097, 5000, 9000, 65507}
+	checkRcv := func(i int, r v05eRcv, fail func(string, ...any)) int {
+		n, ok := sentDown[fmt.Sprintf("%d|%s|%s", i, r.addr, r.data)]
+		if !ok {
+			fail("C05 e2e: session %d received %d bytes from %q that its outbound socket never sent as one datagram (a truncated or stitched payload); head=%x",
+				i, len(r.data), r.addr, r.data[:v05eMin(len(r.data), 12)])
+		}
+		return n
+	}
+	{ // deterministic prologue on session 0
+		first := v05ePayload('U', 0, 32)
+		sentUp[addrOf(0)+"|"+addrOf(0)+"|"+string(first)] = 0
+		end := time.Now().Add(15 * time.Second)
+		for ob.sock(addrOf(0)) == nil {
+			if err := conns[0].Send(first, addrOf(0)); err != nil {
+				vInconclusive("C05 e2e: client Send failed: " + err.Error())
+			}
+			time.Sleep(50 * time.Millisecond)
+			if time.Now().After(end) {
+				vInconclusive("C05 e2e: no datagram reached the outbound")
+			}
+		}
+		sk := ob.sock(addrOf(0))
+		for k, n := range bigSizes {
+			seq++
+			down := v05ePayload('D', 60000+k, n)
+			sentDown[fmt.Sprintf("%d|%s|%s", 0, addrOf(0), down)] = -1
+			sk.in <- down
+		}
+		got := 0
+		deadline := time.After(600 * time.Millisecond)
+	prologue:
+		for got < len(bigSizes) {
+			select {
+			case r := <-rcv[0]:
+				checkRcv(0, r, func(f string, a ...any) { t.Fatalf(f, a...) })
+				got++
+				deadline = time.After(400 * time.Millisecond) // silence after the last arrival ends the wait
+			case <-deadline:
+				break prologue
+			}
+		}
+		st.Case(true, "oversize-prologue", []string{"remote-datagrams-around-4096"}, func() string {
+			return fmt.Sprintf("remote datagrams of sizes %v on one session: %d arrived, each identical to a sent one", bigSizes, got)
+		})
+	}
 	rapid.Check(t, func(rt *rapid.T) {
 		i := rapid.IntRange(0, nSess-1).Draw(rt, "session")
 		upSize := sizeGen.Draw(rt, "clientToServerSize")
 		downSize := sizeGen.Draw(rt, "serverToClientSize")
+		oversize := false
+		if rapid.IntRange(0, 5).Draw(rt, "remoteDatagramAround4096") == 0 {
+			downSize = rapid.SampledFrom(bigSizes).Draw(rt, "bigSize")
+			oversize = downSize > 4000 // may legitimately be dropped by the server: not counted as loss
+		}
 		seq++
 		// ---- client -> server -> outbound socket
 		up := v05ePayload('U', seq, upSize)
@@ -226,18 +281,20 @@ func TestVerifC05_E2EContent(t *testing.T) {
 		if sk := ob.sock(addrOf(i)); sk != nil {
 			down := v05ePayload('D', seq, downSize)
 			sentDown[fmt.Sprintf("%d|%s|%s", i, addrOf(i), down)] = seq
-			downSent++
+			if !oversize {
+				downSent++
+			}
 			sk.in <- down
-			deadline := time.After(grace)
+			g := grace
+			if oversize {
+				g = 300 * time.Millisecond
+			}
+			deadline := time.After(g)
 		waitDown:
 			for {
 				select {
 				case r := <-rcv[i]:
-					n, ok := sentDown[fmt.Sprintf("%d|%s|%s", i, r.addr, r.data)]
-					if !ok {
-						rt.Fatalf("C05 e2e: session %d received %d bytes from %q that its outbound socket never produced (socket sent %d bytes in message %d); head=%x",
-							i, len(r.data), r.addr, downSize, seq, r.data[:v05eMin(len(r.data), 12)])
-					}
+					n := checkRcv(i, r, func(f string, a ...any) { rt.Fatalf(f, a...) })
 					if n == seq {
 						downOK = true
 						break waitDown
@@ -246,11 +303,11 @@ func TestVerifC05_E2EContent(t *testing.T) {
 					break waitDown
 				}
 			}
-			if downOK {
+			if downOK && !oversize {
 				downArrived++
 			}
 		}
-		st.Case(upSize > 1150 || downSize > 1150, fmt.Sprintf("%d/%d/%d", i, upSize, downSize), []string{"up:" + frags(upSize), "down:" + frags(downSize)}, func() string {
+		st.Case(upSize > 1150 || downSize > 1150, fmt.Sprintf("%d/%d/%d", i, upSize, downSize), []string{"up:" + frags(upSize), "down:" + frags(downSize), map[bool]string{true: "remote-datagram-around-4096", false: "remote-datagram<=4000"}[downSize >= 4000]}, func() string {
 			return fmt.Sprintf("session %d: %d bytes client->server (arrived=%v), %d bytes server->client (arrived=%v)", i, upSize, arrived, downSize, downOK)
 		})
 	})
